@@ -228,6 +228,37 @@ func fieldEvents(tr *hx.Trace, r *hx.Rng, thorough bool) {
 		var cb [32]byte
 		curve25519.Contract(cb[:], &R3)
 		emit("Contract", &R3, nil, nil, map[string]interface{}{"bytes": hx.Ints(cb[:])})
+		// serialisation of every internal representation: unreduced classes too
+		for _, x := range []*fe{&A1, &S1, &AB, &SB, &SB2, &SB3} {
+			curve25519.Contract(cb[:], x)
+			emit("Contract", x, nil, nil, map[string]interface{}{"bytes": hx.Ints(cb[:])})
+		}
+	}
+	// small values in unreduced form: a - b and a + b for small a, b (the representation is 2p + r, 4p + r, ...),
+	// and values around p and 2p: the canonicalisation must fold every carry
+	for d := int64(0); d < 96; d++ {
+		a := feFromBytes(refmodel.LE(big.NewInt(d), 32))
+		b := feFromBytes(refmodel.LE(big.NewInt(d/3), 32))
+		z := feFromBytes(make([]byte, 32))
+		pm := feFromBytes(refmodel.LE(new(big.Int).Sub(refmodel.P, big.NewInt(d)), 32))
+		var o fe
+		var cb [32]byte
+		for k, pr := range [][2]*fe{{&a, &z}, {&a, &b}, {&z, &a}, {&pm, &a}, {&a, &pm}, {&pm, &pm}} {
+			curve25519.Sub(&o, pr[0], pr[1])
+			curve25519.Contract(cb[:], &o)
+			emit("Contract", &o, nil, nil, map[string]interface{}{"bytes": hx.Ints(cb[:]), "form": fmt.Sprintf("Sub#%d", k)})
+			curve25519.SubAfterBasic(&o, pr[0], pr[1])
+			curve25519.Contract(cb[:], &o)
+			emit("Contract", &o, nil, nil, map[string]interface{}{"bytes": hx.Ints(cb[:]), "form": fmt.Sprintf("SubAfterBasic#%d", k)})
+			curve25519.Add(&o, pr[0], pr[1])
+			curve25519.Contract(cb[:], &o)
+			emit("Contract", &o, nil, nil, map[string]interface{}{"bytes": hx.Ints(cb[:]), "form": fmt.Sprintf("Add#%d", k)})
+			var o2 fe
+			curve25519.Add(&o2, &o, &o)
+			curve25519.AddAfterBasic(&o2, &o2, pr[0])
+			curve25519.Contract(cb[:], &o2)
+			emit("Contract", &o2, nil, nil, map[string]interface{}{"bytes": hx.Ints(cb[:]), "form": fmt.Sprintf("AddAfterBasic#%d", k)})
+		}
 	}
 	// zero and the identities
 	var z, o fe
@@ -549,6 +580,13 @@ func groupEvents(tr *hx.Trace, r *hx.Rng, thorough bool) {
 		pts = append(pts, pk{r.Scalar(), t})
 	}
 	svals := []*big.Int{big.NewInt(0), big.NewInt(1), big.NewInt(2), new(big.Int).Sub(refmodel.L, big.NewInt(1)), new(big.Int).Sub(two(252), big.NewInt(1)), two(252)}
+	// scalars of every magnitude: 2^k - 1, 2^k, 2^k + 1 around the limb boundaries of both layouts and the window sizes
+	// (runs of ones make the signed recoding carry one bit further than the scalar's length)
+	var mags []*big.Int
+	for _, k := range []uint{5, 7, 30, 56, 60, 112, 120, 150, 168, 180, 210, 223, 224, 225, 239, 240, 241, 250, 251} {
+		mags = append(mags, new(big.Int).Sub(two(k), big.NewInt(1)), two(k), new(big.Int).Add(two(k), big.NewInt(1)),
+			new(big.Int).Rsh(refmodel.FromLE(r.Bytes(32)), 256-k))
+	}
 	reps := 1
 	if thorough {
 		reps = 12
@@ -570,6 +608,13 @@ func groupEvents(tr *hx.Trace, r *hx.Rng, thorough bool) {
 			}
 			for i := 0; i < 4; i++ {
 				cands = append(cands, [2]*big.Int{r.Scalar(), r.Scalar()}, [2]*big.Int{r.Scalar(), svals[r.Intn(len(svals))]})
+			}
+			for i := 0; i < 12; i++ { // both scalars short (the scan may start below the top limb)
+				a, b := mags[r.Intn(len(mags))], mags[r.Intn(len(mags))]
+				cands = append(cands, [2]*big.Int{a, b})
+				if i%3 == 0 {
+					cands = append(cands, [2]*big.Int{a, big.NewInt(int64(r.Intn(3)))}, [2]*big.Int{big.NewInt(int64(r.Intn(3))), b})
+				}
 			}
 			for _, c := range cands {
 				var s1, s2 modm.Bignum256
